@@ -216,7 +216,7 @@ impl Prop for C04 {
 
     fn rule(&self) -> String {
         "cases = (a generated tree up to depth 4 over a name pool with ASCII, Unicode, spaces and a 66-character name (paths > 100 bytes), extensions incl. the empty one, same stem with several extensions, a directory and a file sharing an id, \
-         empty directories, contents empty / small / 20-100 KiB; archive options: member order permutation, directory members all / none / random subset, './' prefix, stored or deflated per member, in-memory or file-backed reader; 1..4 reader threads). \
+         empty directories, contents empty / small / 20-100 KiB; archive options: member order permutation, directory members all / none / random subset, './' prefix, stored or deflated per member, an outdated earlier member of one path (the last member is the stored one), in-memory or file-backed reader; 1..4 reader threads). \
          The tree is materialised on disk (FileSystem), as zip, as tar and - by running the embed! macro's own expansion code on the directory and evaluating the produced table - as Embedded. \
          Oracle = the generated tree itself: read gives the stored bytes, read_dir lists every direct child exactly once with kind/id/ext, exists agrees, listed entries are readable, absent entries (fresh ids, wrong extension, wrong kind) do not exist and fail to read (NotFound unless the other kind occupies the path). \
          non-trivial = a tree with >= 2 levels and a directory without an archive member of its own, or a non-identity member order; distinct = different canonical JSON"
@@ -249,7 +249,7 @@ impl Prop for C04 {
             .map(|k| {
                 to_case(&Case {
                     tree: TreeSpec { entries: Vec::new() },
-                    opts: ArchOpts { order: 0, dir_members: DirMembers::All, dot_prefix: false, deflate_mask: 0, file_backed: false },
+                    opts: ArchOpts { order: 0, dir_members: DirMembers::All, dot_prefix: false, deflate_mask: 0, file_backed: false, stale_duplicate: None },
                     threads: 2,
                     fixed: Some(k),
                 })
@@ -370,6 +370,9 @@ impl Prop for C04 {
         }
         if c.opts.dot_prefix {
             out.label("dot-prefix");
+        }
+        if c.opts.stale_duplicate.is_some() && !m.files.is_empty() {
+            out.label("duplicate-member");
         }
         if m.files.keys().any(|(i, _)| trees::rel_path(i, None).to_str().map_or(0, |s| s.len()) > 100) {
             out.label("long-path");
